@@ -360,6 +360,7 @@ func runC22(c *core.Ctx) {
 			c.Decide(okP && okF && f == "SourceChainID", "C22.entrance-args", ie, "MakeTransaction(native, verified txParam, params.SourceChainID)", c.P.Rel(call.Pos()), "")
 		}
 	}
+	checkAcceptedImportHasOutbound(c)
 }
 
 // checkMerkleValueLiteral: the ToMerkleValue serialised has TxHash =
